@@ -20,6 +20,7 @@ use crate::simrng::{boundary_lattice, mix, Fault, SimRng};
 use serde::{Deserialize, Serialize};
 use serde_json::{json, Value};
 use std::collections::{BTreeMap, BTreeSet};
+use std::sync::Mutex;
 
 #[derive(Clone, Debug, Serialize, Deserialize, PartialEq)]
 #[serde(rename_all = "snake_case")]
@@ -962,6 +963,78 @@ pub fn shrink(case: &HistCase, mode: Mode, fail: &HFail) -> (HistCase, u32) {
 }
 
 // ---------------------------------------------------------------------------
+// Thread schedules (C14): the `threads/` program under Miri's seeded scheduler
+// ---------------------------------------------------------------------------
+
+#[derive(Clone, Debug, Serialize, Deserialize)]
+pub struct ThreadCase {
+    pub kind: String,
+    pub scenario: u64,
+    pub miri_seed: u64,
+    pub preemption_rate: f64,
+    pub calls: u64,
+}
+
+pub enum ThreadOutcome {
+    Ok(u64),
+    Violation(String, String),
+    Harness(String),
+}
+
+fn threads_dir() -> std::path::PathBuf {
+    crate::runner::verif_dir().join("threads")
+}
+
+/// One (scenario, Miri seed) pair = one exactly repeatable interleaving.
+pub fn run_thread_case(c: &ThreadCase) -> ThreadOutcome {
+    use std::process::Command;
+    let out = Command::new("cargo")
+        .current_dir(threads_dir())
+        .args(["+nightly", "miri", "run", "--offline", "-q", "--"])
+        .arg(c.scenario.to_string())
+        .arg(c.calls.to_string())
+        .env("CARGO_NET_OFFLINE", "true")
+        .env("MIRIFLAGS", format!("-Zmiri-seed={} -Zmiri-preemption-rate={}", c.miri_seed, c.preemption_rate))
+        .env_remove("RUSTFLAGS")
+        .output();
+    let out = match out {
+        Ok(o) => o,
+        Err(e) => return ThreadOutcome::Harness(format!("cannot run cargo miri: {e}")),
+    };
+    let so = String::from_utf8_lossy(&out.stdout);
+    let se = String::from_utf8_lossy(&out.stderr);
+    if let Some(l) = so.lines().find(|l| l.starts_with("THREADS-VIOLATION")) {
+        return ThreadOutcome::Violation("impure(thread-schedule)".into(), l.to_string());
+    }
+    if let Some(l) = so.lines().find(|l| l.starts_with("THREADS-OK")) {
+        if out.status.success() {
+            let d = l.rsplit("digest=").next().and_then(|x| u64::from_str_radix(x.trim(), 16).ok()).unwrap_or(0);
+            return ThreadOutcome::Ok(d);
+        }
+    }
+    // Miri itself stopped the program
+    if se.contains("Data race detected") || se.contains("Undefined Behavior") {
+        let l = se.lines().find(|l| l.contains("Undefined Behavior") || l.contains("Data race")).unwrap_or("").trim().to_string();
+        return ThreadOutcome::Violation("impure(thread-schedule)".into(), format!("Miri: {l}"));
+    }
+    if se.contains("a sampling thread panicked") || se.contains("panicked at") {
+        let l = se.lines().find(|l| l.contains("panicked at")).unwrap_or("").trim().to_string();
+        return ThreadOutcome::Violation("panic(thread-schedule)".into(), format!("a sampling thread panicked: {l}"));
+    }
+    ThreadOutcome::Harness(format!("unexpected outcome of cargo miri run (status {:?}): {}", out.status.code(), se.lines().rev().take(6).collect::<Vec<_>>().join(" | ")))
+}
+
+fn thread_case(ctx_seed: u64, i: u64) -> ThreadCase {
+    ThreadCase {
+        kind: "thread-schedule".into(),
+        scenario: mix(&[ctx_seed, 0x7EAD, i]) & 0xffff_ffff,
+        miri_seed: i,
+        preemption_rate: [0.02, 0.1, 0.3][(i % 3) as usize],
+        calls: 48,
+    }
+}
+
+// ---------------------------------------------------------------------------
 // Engine
 // ---------------------------------------------------------------------------
 
@@ -1142,12 +1215,93 @@ impl Engine for HistEngine {
         res.digest = d.0;
         res
     }
+    fn post_stage(&self, ctx: &Ctx, index: usize) -> Result<Option<CaseResult>, String> {
+        if self.mode != Mode::Purity || std::env::var("VERIF_NO_THREADS").is_ok() {
+            return Ok(None);
+        }
+        let n: u64 = if ctx.tier == Tier::Thorough { 3072 } else { 192 };
+        // build once (serially); a failure here is a harness error, not a verdict
+        match run_thread_case(&thread_case(ctx.seed, 0)) {
+            ThreadOutcome::Harness(e) => return Err(e),
+            _ => {}
+        }
+        let next = std::sync::atomic::AtomicU64::new(0);
+        let results: Mutex<Vec<(u64, ThreadCase, ThreadOutcome)>> = Mutex::new(Vec::new());
+        let workers = std::thread::available_parallelism().map(|x| x.get()).unwrap_or(4);
+        std::thread::scope(|sc| {
+            for _ in 0..workers {
+                sc.spawn(|| loop {
+                    let i = next.fetch_add(1, std::sync::atomic::Ordering::SeqCst);
+                    if i >= n {
+                        break;
+                    }
+                    let c = thread_case(ctx.seed, i);
+                    let o = run_thread_case(&c);
+                    results.lock().unwrap().push((i, c, o));
+                });
+            }
+        });
+        let mut rs = results.into_inner().unwrap();
+        rs.sort_by_key(|r| r.0);
+        let mut res = CaseResult::new(index);
+        let mut d = Digest::new();
+        let mut seen: BTreeSet<String> = BTreeSet::new();
+        for (i, c, o) in rs {
+            res.evaluations += c.calls * 3;
+            res.inj("S-thread-schedule(miri)", 1);
+            res.fired("S-thread-schedule(miri)", 1);
+            res.stat_sum("thread_schedules_explored(miri_seeded)", 1.0);
+            match o {
+                ThreadOutcome::Ok(dg) => {
+                    d.add(dg);
+                    res.keys.push(hash_key(&["thread-schedule", &c.scenario.to_string(), &c.miri_seed.to_string()]));
+                }
+                ThreadOutcome::Violation(class, detail) => {
+                    d.add_str(&class);
+                    let fam = detail.split("group=\"").nth(1).and_then(|x| x.split('"').next()).unwrap_or("").to_string();
+                    if !seen.insert(format!("{class}|{fam}")) {
+                        continue;
+                    }
+                    let mut sig = BTreeMap::new();
+                    sig.insert("family".into(), fam);
+                    sig.insert("class".into(), class.clone());
+                    res.violations.push(Violation {
+                        class,
+                        detail: format!("{detail} [schedule {i}: scenario {}, Miri seed {}, preemption rate {}]", c.scenario, c.miri_seed, c.preemption_rate),
+                        sig,
+                        case: serde_json::to_value(&c).unwrap(),
+                    });
+                }
+                ThreadOutcome::Harness(e) => return Err(e),
+            }
+        }
+        res.samples.push(json!({"thread_schedules": n, "program": "threads/ (2-3 threads, related values, own streams; each thread must reproduce what the value returned alone)", "scheduler": "Miri -Zmiri-seed=i -Zmiri-preemption-rate in {0.02, 0.1, 0.3}"}));
+        res.digest = d.0;
+        Ok(Some(res))
+    }
     fn fresh_worker_per_case(&self) -> bool {
         // a change that adds process-wide hidden state must not make the result of a case
         // depend on which cases the same worker ran before
         true
     }
     fn replay(&self, ctx: &Ctx, case: &Value) -> Result<Vec<Violation>, String> {
+        if case["kind"].as_str() == Some("thread-schedule") {
+            let c: ThreadCase = serde_json::from_value(case.clone()).map_err(|e| format!("bad replay case: {e}"))?;
+            println!("replay: thread schedule: scenario {} under Miri seed {} (preemption rate {})", c.scenario, c.miri_seed, c.preemption_rate);
+            return match run_thread_case(&c) {
+                ThreadOutcome::Ok(d) => {
+                    println!("replay: outcome ok (digest {d:016x})");
+                    Ok(vec![])
+                }
+                ThreadOutcome::Violation(class, detail) => {
+                    println!("replay: outcome class={class}: {detail}");
+                    let mut sig = BTreeMap::new();
+                    sig.insert("class".into(), class.clone());
+                    Ok(vec![Violation { class, detail, sig, case: case.clone() }])
+                }
+                ThreadOutcome::Harness(e) => Err(e),
+            };
+        }
         if case["kind"].as_str() == Some("history-prefix") {
             let index = case["case_index"].as_u64().ok_or("case_index")? as usize;
             let upto = case["upto"].as_u64().ok_or("upto")? as usize;
